@@ -1,13 +1,11 @@
 #!/bin/bash
 # Run once after a fresh restore, offline: builds the harness from files on disk only.
-# The libFuzzer targets (thorough tiers of C05, C12, C20) are pre-built as well; the checks
-# rebuild them on demand anyway, so a failure here is not fatal.
+# The libFuzzer targets (thorough tiers of C05, C06, C12, C20) are built on demand by the
+# thorough tier itself (cargo +nightly fuzz build, 1-2 min each); the quick tier does not
+# need them.
 set -e
 export CARGO_NET_OFFLINE=true
 export PATH="$HOME/.cargo/bin:$PATH"
 cd /verif/harness
 cargo build --release --offline 2>&1 | tail -3
-for t in c05 c06 c12 c20; do
-    RUSTFLAGS="--cfg sourcemap_verif" cargo +nightly fuzz build "$t" >/dev/null 2>&1 || echo "note: fuzz target $t not pre-built (will be built by the thorough tier)"
-done
 echo "setup done"
